@@ -205,8 +205,9 @@ class PointStore(object):
   """The 'point store' stub: a callable preprocessor over a backing array.
   The simulator arms a fault at the k-th call counted from the arming."""
 
-  def __init__(self, X):
+  def __init__(self, X, mixed=False):
     self.X = np.asarray(X)
+    self.mixed = bool(mixed)  # behaves like a Python table: whole-number rows come back as integers
     self.calls = []          # digests of every index array it was asked for
     self.armed = None        # dict(at=k, exc=name)
     self._since_arm = 0
@@ -235,14 +236,20 @@ class PointStore(object):
           from metric_learn.exceptions import PreprocessorError
           raise PreprocessorError(RuntimeError("simulated store failure"))
         raise EXC_TYPES[name]("simulated store failure #%d" % k)
-    return self.X[ind]
+    out = self.X[ind]
+    if self.mixed and out.dtype.kind == "f" and out.size and np.all(out == np.round(out)) \
+        and np.abs(out).max() < 2 ** 52:
+      # np.array([table[i] for i in indices]) over a table whose rows hold
+      # Python ints where the numbers are whole: the dtype depends on the rows asked for
+      out = out.astype(np.int64)
+    return out
 
   def sim_digest(self):
-    return "PointStore:" + digest(self.X)
+    return "PointStore:" + digest(self.X) + ("m" if self.mixed else "")
 
   def __getstate__(self):
     return dict(X=self.X, calls=list(self.calls), armed=self.armed,
-                _since_arm=self._since_arm, fired=list(self.fired))
+                _since_arm=self._since_arm, fired=list(self.fired), mixed=self.mixed)
 
   def __setstate__(self, st):
     self.__dict__.update(st)
